@@ -72,3 +72,85 @@ Print Assumptions C04_nonvacuous_listen_only.
 From N2kV Require Model.GroupFnDefs Proofs.GroupFnContractsB.
 Theorem C04_gf_lib_ok : GateSpec.gf_ok GroupFnDefs.gf_lib.  Proof. exact GroupFnContractsB.gf_lib_gate_ok. Qed.
 Print Assumptions C04_gf_lib_ok.
+
+(* ================= the public application calls (Model/ApiDefs.v) =================
+   Statements in Spec/ApiGateSpec.v, proofs in Proofs/ApiGateProofs.v and Proofs/ApiGateProofsB.v.  Every public call except SetMode is a
+   run of the send-entitlement machine (SetMode re-addresses the devices without a claim by design and is excluded - exactly it - from
+   that statement; C04_api_set_mode_not_a_run shows the exclusion is necessary); listen-only nodes, nodes that are not open and the
+   settle delay cover all calls, SetMode included.  C04_api_not_open_noclock_refuted: the clock hypothesis of the not-open statement is
+   needed for SendHeartbeat(force) in the last 200 ms before the 64-bit clock wraps (model boundary, cf. GateSpec.clock_ok). *)
+From N2kV Require Model.ApiDefs Spec.ApiGateSpec Proofs.ApiGateProofs Proofs.ApiGateProofsB.
+Theorem C04_api_produced_frames_entitled : ApiGateSpec.api_produced_frames_entitled_stmt.  Proof. exact ApiGateProofs.api_produced_frames_entitled. Qed.
+Print Assumptions C04_api_produced_frames_entitled.
+Theorem C04_api_xstep_produced_frames_entitled : ApiGateSpec.xstep_produced_frames_entitled_stmt.  Proof. exact ApiGateProofs.xstep_produced_frames_entitled. Qed.
+Print Assumptions C04_api_xstep_produced_frames_entitled.
+Theorem C04_api_set_mode_not_a_run : ApiGateSpec.api_set_mode_not_a_run_stmt.  Proof. exact ApiGateProofs.api_set_mode_not_a_run. Qed.
+Print Assumptions C04_api_set_mode_not_a_run.
+Theorem C04_api_listen_only_silent : ApiGateSpec.api_listen_only_silent_stmt.  Proof. exact ApiGateProofs.api_listen_only_silent. Qed.
+Print Assumptions C04_api_listen_only_silent.
+Theorem C04_api_xrun_listen_only_silent : ApiGateSpec.xrun_listen_only_silent_stmt.  Proof. exact ApiGateProofs.xrun_listen_only_silent. Qed.
+Print Assumptions C04_api_xrun_listen_only_silent.
+Theorem C04_api_not_open_silent : ApiGateSpec.api_not_open_silent_stmt.  Proof. exact ApiGateProofsB.api_not_open_silent. Qed.
+Print Assumptions C04_api_not_open_silent.
+Theorem C04_api_xstep_not_open_silent : ApiGateSpec.xstep_not_open_silent_stmt.  Proof. exact ApiGateProofsB.xstep_not_open_silent. Qed.
+Print Assumptions C04_api_xstep_not_open_silent.
+Theorem C04_api_not_open_noclock_refuted : ApiGateSpec.api_not_open_noclock_refuted_stmt.  Proof. exact ApiGateProofsB.api_not_open_noclock_refuted. Qed.
+Print Assumptions C04_api_not_open_noclock_refuted.
+Theorem C04_api_settle_delay : ApiGateSpec.api_settle_delay_stmt.  Proof. exact ApiGateProofsB.api_settle_delay. Qed.
+Print Assumptions C04_api_settle_delay.
+
+(* ---------- non-vacuity ---------- *)
+Import ApiDefs.
+(* the open two-device node (addresses 30, 31; no claim pending).
+   SendProductInformation(0) produces the PGN 126996 frame from address 30 (0x19f0141e = to_can_id 6 126996 30 255) and
+   SendHeartbeat(1) the heartbeat from 31; SetDeviceInformationInstances is silent but arms the delayed claim, which the next
+   ParseMessages sends (0x18eeff1e); Restart() sends both claims and opens both windows.  Inside the windows
+   SendProductInformation(0) and SendTxPGNList(.., 1) produce nothing, SendIsoAddressClaim still does; 251 ms later the senders work
+   again; the setters and the delayed claim are silent. *)
+Definition api_ex_ops : list xop :=
+  [ XApi (ASendProd 0); XApi (ASendHeartbeatDev 1); XApi (ASetInstances 0 1 2 3); XBase (RBase (OTick 3)); XBase RPoll;
+    XApi ARestart; XApi (ASendProd 0); XApi (ASendClaim 255 0 0); XApi (ASendTxList 255 1 false); XBase (RBase (OTick 251)); XApi (ASendProd 0); XApi (ASendConf 1);
+    XApi (ASendHeartbeatAll true); XApi (ASetPgnList 0 [130000]); XApi (ASetDeviceInformation 0 5 255 255 65535 255); XApi (ASendClaim 255 (-1) 10) ].
+Example C04_api_nonvacuous_open :
+  to_can_id 6 126996 30 255 = 435164190 /\
+  evs_summary (snd (xrun gf_none (ex_node 1) api_ex_ops))
+  = [ [inl 435164190]; [inl 502272287]; []; []; [inl 418316062]; [inl 418316062; inl 418316063]; []; [inl 418316062]; []; [];
+      [inl 435164190]; [inl 435164703]; [inl 502272286; inl 502272287]; []; []; [] ] /\
+  (* the state in which the 7th operation, SendProductInformation(0), produces nothing: open, both claims pending *)
+  (let r := fst (xrun gf_none (ex_node 1) (firstn 6 api_ex_ops)) in
+   n_open (rn r) = 3 /\ claim_pending (rn r) 0 = true /\ claim_pending (rn r) 1 = true /\ snd (api_step r (ASendProd 0)) = []) /\
+  (* the hypotheses of the step statement hold of the start state *)
+  clock_ok (rn (ex_node 1)) /\ Forall (fun o => ApiGateSpec.x_is_set_mode o = false) api_ex_ops.
+Proof.
+  split; [vm_compute; reflexivity|]. split; [vm_compute; reflexivity|]. split; [vm_compute; repeat split|].
+  split; [intros _ _; vm_compute; split; [discriminate|reflexivity]|]. repeat constructor.
+Qed.
+Print Assumptions C04_api_nonvacuous_open.
+
+(* a cold node constructed at t0 = 1000 (NodeOnly): public calls of six kinds during the first 199 ms - the hypotheses of the settle
+   statement hold of the first nine operations - reach the driver not at all, although the second call opens the CAN interface;
+   SetMode(1, 40) before the node is open silently moves the devices to 40, 41; at t0 + 202 SendConfigurationInformation completes
+   Open(), and the initial claims go out from 40 and 41 (0x18eeff28, 0x18eeff29) - the call whose Open() completes is outside the
+   not-open statement, the frames are the initial claims. *)
+Definition api_ex_cold : rnode :=
+  cold_node true 1 1000 40 5 no_lists [mk_dev true 30 d05_name []; mk_dev true 31 (d05_name + 1) []] [[]; []] ex_cfg.
+Definition api_ex_cold_ops : list xop :=
+  [ XApi (ASendProd 0); XBase (RBase (OTick 1)); XApi (ASendProd 0); XBase (RBase (OTick 198)); XApi (ASendHeartbeatAll true); XApi ARestart; XApi (ASetMode 1 40);
+    XApi (ASendClaim 255 0 0); XBase RPoll; XBase (RBase (OTick 3)); XApi (ASendConf 0) ].
+Example C04_api_nonvacuous_cold :
+  ApiGateSpec.xclock_after 1000 (firstn 9 api_ex_cold_ops) = 1199 /\ ApiGateSpec.xticks_nonneg (firstn 9 api_ex_cold_ops) /\
+  evs_summary (snd (xrun gf_none api_ex_cold api_ex_cold_ops)) = [ []; []; []; []; []; []; []; []; []; []; [inl 418316072; inl 418316073] ] /\
+  (let r := fst (xrun gf_none api_ex_cold (firstn 3 api_ex_cold_ops)) in n_open (rn r) = 2 /\ open_completes r = false) /\
+  (let r := fst (xrun gf_none api_ex_cold (firstn 10 api_ex_cold_ops)) in n_open (rn r) = 2 /\ open_completes r = true).
+Proof.
+  split; [vm_compute; reflexivity|]. split; [repeat constructor; vm_compute; discriminate|].
+  split; [vm_compute; reflexivity|]. split; vm_compute; split; reflexivity.
+Qed.
+Print Assumptions C04_api_nonvacuous_cold.
+
+(* a listen-only node: the same sixteen operations as on the open node above reach the driver not at all *)
+Example C04_api_nonvacuous_listen_only :
+  forallb (forallb (fun e => negb (is_tx e))) (snd (xrun gf_none (ex_node 0) api_ex_ops)) = true /\
+  n_mode (rn (ex_node 0)) = 0 /\ queue_empty (n_q (rn (ex_node 0))).
+Proof. vm_compute. repeat split. Qed.
+Print Assumptions C04_api_nonvacuous_listen_only.
